@@ -345,3 +345,17 @@ Proof.
     apply iv_nat_cast; lia. }
   rewrite E. split; [exact OK|]. apply (scan_ok_covered score sq k p). exact OK.
 Qed.
+
+(* the deprecated wrapper: the scan under the permutation score, keeping (bucket as u16, start, len) *)
+Theorem simple_scan_spec sq k p perm rcmode :
+  1 <= p -> p <= 8 -> p <= k -> k <= length sq -> (N.of_nat (length sq) < 2 ^ 32)%N -> (N.of_nat (2 * k - p) < 2 ^ 16)%N ->
+  exists ivs, scan (perm_score perm rcmode) sq k p = Some ivs /\
+    scan_ok (perm_score perm rcmode) sq k p (map iv_nat ivs) /\
+    simple_scan sq k p perm rcmode =
+      Some (map (fun x => ((bucket_of (iv_minimizer x) mod 2 ^ 16)%N, iv_start x, iv_len x)) ivs).
+Proof.
+  intros Hp Hp8 Hpk Hkm H32 H16.
+  destruct (scan_spec (perm_score perm rcmode) sq k p Hp Hpk Hkm H32 H16) as [ivs [E [OK _]]].
+  exists ivs. split; [exact E|]. split; [exact OK|]. unfold simple_scan.
+  replace (p <=? 8) with true by (symmetry; apply Nat.leb_le; exact Hp8). rewrite E. reflexivity.
+Qed.
